@@ -27,6 +27,10 @@ iteration is allowed to call "converged" and how solid-solution fractions are fo
                 the use has already left (23 accumulate/use pairs in the engine)
 The unknown-type codes (macros) are recovered from the set-up functions (setup_exchange, setup_surface, setup_pure_phases,
 setup_ss_assemblage).
+  C03.onecomp  "exchangers keep their exchange capacity": step_save_exch books each exchange master's site total on exactly one component
+               (the component loop is left after the first store); setup_exchange sums the element over the components of a master
+  C03.zerosites  an exchanger related to an absent phase has no sites but does have an unknown: on model reuse quick_setup assigns
+               unknown->moles for exchange / surface-site masters with total == 0 as well (finite-domain evaluation of the master loop)
 Not decided: SI = target / phase absent with SI <= target, dissolve_only / precipitate_only / force_equality (inequality solver
 outcome), the non-ideal solid-solution model, initial exchanger / surface composition.
 """
@@ -67,7 +71,64 @@ def conv(n):
     raise RF.NotRational(T.text(n)[:40])
 
 
+def onecomp_rule(P, R):
+    """"Exchangers keep their exchange capacity": after a reaction the exchanger is written back by step_save_exch, which zeroes the
+    totals of every component and then books the site total of each exchange master on ONE component that holds the element
+    (setup_exchange later sums the element over the components sharing the master).  The store inside the component loop must be
+    followed by `break`; without it every formula on the site receives the full total and the capacity is multiplied."""
+    RULE = "C03.onecomp"
+    R.rule(RULE, "step_save_exch books the site total of an exchange master on exactly one component (store followed by break); setup_exchange sums over the components", minimum=2)
+    f = P.one("Phreeqc::step_save_exch")
+    where = dict(file=f["file"], function=f["q"])
+
+    def is_store(n):
+        if n[0] == "Call" and (T.callee_q(n) or "") == "cxxNameDouble::insert":
+            return True
+        if n[0] == "Bin" and n[2] == "=" and T.strip_casts(n[3])[0] == "Call" and T.callee_name(T.strip_casts(n[3])) == "operator[]":
+            return True
+        if n[0] == "Call" and (T.callee_q(n) or "").endswith("operator=") and n[4] and T.strip_casts(n[4][0])[0] == "Call" and T.callee_name(T.strip_casts(n[4][0])) == "operator[]":
+            return True
+        return False
+    found = 0
+    for lp in T.walk(f["body"]):
+        if lp[0] != "For" or not any(T.callee_name(c) == "Get_exchange_comps" for c in T.calls(lp[3]) ) :
+            continue
+        # only the loop nested in the loop over the masters
+        stores = [y for y in T.walk(lp[5]) if is_store(y)]
+        if not stores or not any(z[0] == "Member" and z[2] == "master::total" for z in T.walk(lp[5])):
+            continue
+        found += 1
+        # control flow: from the store, the loop's next iteration is not reachable
+        sub = dict(f, body=["Compound", lp[1], [lp]])
+        cfg = T.CFG(sub)
+        st_ids = [n["id"] for n in cfg.nodes if T.is_node(n["n"]) and any(y is stores[0] for y in T.walk(n["n"]))]
+        cond_ids = [n["id"] for n in cfg.nodes if n["kind"] == "cond" and n["n"] is lp[3]]
+        inst = "step_save_exch:store@%d" % stores[0][1]
+        if not st_ids or not cond_ids:
+            R.anchor_missing(RULE, "step_save_exch: store / loop condition not found in the flow graph")
+            continue
+        reach = cfg.reachable(st_ids[0])
+        if cond_ids[0] in reach:
+            R.violation(RULE, inst, "after booking the site total on a component the loop over the components goes on: every component that holds the exchange element receives the "
+                        "full total, and setup_exchange, which sums the element over the components of a master, multiplies the defined capacity by the number of formulas on the site",
+                        line=stores[0][1], **where)
+        else:
+            R.ok(RULE, inst, "the component loop is left after the first store")
+    if found == 0:
+        R.anchor_missing(RULE, "step_save_exch: loop over the exchange components that stores master->total not found")
+    # cooperating site: setup_exchange accumulates over the components
+    g = P.one("Phreeqc::setup_exchange")
+    acc = [x for x in T.walk(g["body"]) if x[0] == "Bin" and x[2] == "+=" and "moles" in T.text(x[3])]
+    if acc:
+        R.ok(RULE, "setup_exchange:sum", "x->moles += element total of each component (line %d)" % acc[0][1])
+    else:
+        R.anchor_missing(RULE, "setup_exchange no longer accumulates the site total over the components")
+
+
 def run(P, R, tier):
+    onecomp_rule(P, R)
+    from . import c20 as C20
+    C20.zerosites_rule(P, R, RULE="C03.zerosites")
     R.undecided += ["SI = target for present phases / SI <= target for absent ones; dissolve_only, precipitate_only, force_equality (solver outcome)",
                     "non-ideal solid solutions; initial exchanger and surface compositions"]
     f = P.one("Phreeqc::residuals")
